@@ -4,3 +4,13 @@ STD_OPTION_COPIED = r"""
 pub assume_specification<'a, T: Copy> [Option::<&'a T>::copied] (o: Option<&'a T>) -> (r: Option<T>)    // A1
     ensures o.is_none() ==> r.is_none(), o.is_some() ==> r == Some(*o.unwrap());
 """
+
+STD_MIN = r"""
+// R-std: std::cmp::min on usize (generic over Ord + Destruct, which assume_specification cannot name)
+#[verifier::external_body]
+pub fn verif_min_usize(a: usize, b: usize) -> (r: usize) ensures r == (if a <= b { a } else { b }) { std::cmp::min(a, b) }   // A1
+"""
+STD_BOXED_SLICE = r"""
+pub assume_specification<T, A: core::alloc::Allocator> [Vec::<T, A>::into_boxed_slice] (v: Vec<T, A>) -> (r: Box<[T], A>)   // A1
+    ensures r@ == v@;
+"""
